@@ -33,6 +33,13 @@ Theorem C10_window_is_the_neighbourhood : forall lo hi r c,
   forall r' c', In (r', c') (win_px lo hi r c) <-> (r - lo <= r' <= r + hi /\ c - lo <= c' <= c + hi).
 Proof. intros. split; [apply NoDup_win_px | intros; apply In_win_px]. Qed.
 
+(* the averages of the Spec are well defined: a list has at most one median (whatever sorted
+   arrangement is taken), a list of (weight, value) pairs at most one weighted mean *)
+Theorem C10_spec_averages_well_defined :
+  (forall m m' l, is_median m l -> is_median m' l -> (m == m')%Q) /\
+  (forall m m' terms, is_wmean m terms -> is_wmean m' terms -> (m == m')%Q).
+Proof. split; [exact is_median_unique | exact is_wmean_unique]. Qed.
+
 (* ================================================================== median *)
 
 (* For every map, mask, image size (also smaller than the filter), odd filter size 2*rad+1,
@@ -251,6 +258,7 @@ Proof. split; [reflexivity|]. split; [split; intros; reflexivity | vm_compute; r
 Print Assumptions C10_block_sizes_wf.
 Print Assumptions C10_constants.
 Print Assumptions C10_window_is_the_neighbourhood.
+Print Assumptions C10_spec_averages_well_defined.
 Print Assumptions C10_median_eq_spec.
 Print Assumptions C10_median_eq_spec_at_code_constants.
 Print Assumptions C10_median_between_min_max.
